@@ -129,6 +129,7 @@ var (
 	fMaxWall   = flag.Float64("sim.maxwall", 0, "stop starting new runs after this many seconds (0 = no cap)")
 	fTrace     = flag.Bool("sim.trace", false, "record canonical traces per run (determinism self-test)")
 	fShrinkMax = flag.Int("sim.shrinkmax", 400, "max shrink candidates per violation")
+	fShrinkKF  = flag.Int("sim.shrinkknown", 0, "max shrink candidates for violations attributed to a listed known finding (their committed replay plans are what the check uses)")
 	fMaxViol   = flag.Int("sim.maxviol", 3, "stop after this many violating runs")
 	fRuns      = flag.Bool("sim.printruns", false, "print the number of runs for prop/tier and exit")
 	fVerbose   = flag.Bool("sim.v", false, "verbose")
@@ -302,7 +303,11 @@ func Main(t *testing.T, e Engine) {
 				seen[v.Class()] = true
 				fv := FoundViolation{Run: i, Seed: seed, Violation: v}
 				if *fReplayDir != "" {
-					minPlan, minV, tried := Minimise(t, e, *fProp, plan, v.Class(), *fShrinkMax)
+					budget := *fShrinkMax
+					if strings.HasPrefix(v.Signature, "known:") {
+						budget = *fShrinkKF
+					}
+					minPlan, minV, tried := Minimise(t, e, *fProp, plan, v.Class(), budget)
 					if minV.Property == "" {
 						// not reproducible on re-execution: harness nondeterminism, never a violation
 						fmt.Printf("HARNESS-ERROR run=%d seed=%d violation %s did not reproduce on re-execution: %s\n", i, seed, v.Class(), v.Detail)
